@@ -321,6 +321,12 @@ def run(ctx):
         # (3) reachable intermediate inputs: real reductions
         for k in range(40 if ctx.thorough else 8):
             jobs.append(dict(e2ejobs.job(rng, size='small'), timeout=180))
+        # several PARALLEL ddmin rounds in one run (more than 2*jobs subsets, several mutators with work to do)
+        wide = ('(set-logic ALL)\n' + ''.join(f'(declare-const v{k} Int)\n' for k in range(10))
+                + ''.join(f'(assert (> (+ v{k % 10} {k + 2}) (* v{(k + 3) % 10} {k + 3})))\n' for k in range(14)) + '(check-sat)\n')
+        for k in range(6 if ctx.thorough else 3):
+            jobs.append(dict(text=wide, opts=['--strategy', ['ddmin', 'hybrid', 'ddmin'][k % 3], '-j', str(2 + k % 3)],
+                             cmd=[e2e.TOKPRED, 'all', 'v1', 'v4', f'{k + 5}'], env={}, timeout=300))
         runs = e2e.run_many(jobs)
         for j, r in zip(jobs, runs):
             P = e2e.analyse(r)
